@@ -39,6 +39,8 @@ func init() {
 	generators["healthconn"] = genHealthConn
 	generators["dupacquire"] = genDupAcquire
 	generators["doublestop"] = genDoubleStop
+	generators["ctxcancel"] = genCtxCancel
+	generators["nowaitrestart"] = genNoWaitRestart
 	generators["chaintakeover"] = genChainTakeover
 }
 
@@ -2370,6 +2372,88 @@ func genChainTakeover(r rng, k int) *Spec {
 		Action{After: r.pickD(20*ms, 100*ms), Kind: "release", Break: "ct2"},
 	)
 	s.Duration = 8 * h
+	s.Sample = sampleFor(h)
+	return s
+}
+
+// ---------------------------------------------------------------------------
+// ctxcancel: the context the application handed to Start ends (shutdown signal); a stop
+// call follows - at once, or a little later. The stop call stops the election like any
+// other: STOPPED, not leader, demotion callback, record deleted if asked for.
+// ---------------------------------------------------------------------------
+
+// CtxCancelTotal is the size of the enumeration.
+func CtxCancelTotal() int { return 3 * 4 * 2 }
+
+func genCtxCancel(r rng, k int) *Spec {
+	idx := k % CtxCancelTotal()
+	gap := []time.Duration{0, 5 * ms, 300 * ms}[idx%3]
+	idx /= 3
+	sv := []StopVariant{{Plain: true}, {DeleteKey: true, Wait: true, Timeout: 5 * sec}, {DeleteKey: false, Timeout: 5 * sec}, {DeleteKey: true, Wait: true, CtxKind: "deadline", CtxD: 2 * sec}}[idx%4]
+	idx /= 4
+	leader := idx%2 == 0
+	h := r.pickD(500*ms, 1*sec)
+	s := &Spec{TTL: 5 * h, NoPreempt: true, Tags: []string{"lifecycle", "ctxcancel"}}
+	s.Lat = Latency{Min: ms, Max: r.pickD(2*ms, 5*ms)}
+	s.Insts = mkInsts(2, 1, h)
+	x := "i0"
+	if !leader {
+		x = "i1"
+	}
+	s.Inst(x).StartCtx = true
+	s.Inst(x).BlockPromote = r.chance(0.5)
+	s.Actions = append(s.Actions, Action{At: 10 * ms, Kind: "start", Inst: "i0"}, Action{At: 300 * ms, Kind: "start", Inst: "i1"},
+		Action{At: 2 * sec, Kind: "cancelstart", Inst: x})
+	if gap == 0 {
+		s.Actions = append(s.Actions, Action{Chain: true, Kind: "stop", Inst: x, Stop: &sv})
+	} else {
+		s.Actions = append(s.Actions, Action{After: gap, Kind: "stop", Inst: x, Stop: &sv})
+	}
+	s.Actions = append(s.Actions, Action{After: ms, Kind: "waitapi", Inst: x, D: 8 * sec})
+	s.Duration = 2 * h
+	s.Sample = sampleFor(h)
+	return s
+}
+
+// ---------------------------------------------------------------------------
+// nowaitrestart: a leader is stopped by a call that does not wait for OnDemote (or gives
+// up waiting) and started again at once; the detached OnDemote goroutine is held at its
+// entry - before it has signalled that it started - until the new run has acquired the
+// key. Callbacks still alternate: the new term's OnPromote waits for it.
+// ---------------------------------------------------------------------------
+
+// NoWaitRestartTotal is the size of the enumeration.
+func NoWaitRestartTotal() int { return 3 * 3 * 2 }
+
+func genNoWaitRestart(r rng, k int) *Spec {
+	idx := k % NoWaitRestartTotal()
+	sv := []StopVariant{{DeleteKey: true, Wait: false, Timeout: 5 * sec}, {DeleteKey: false, Wait: false, Timeout: 5 * sec}, {DeleteKey: true, Wait: true, Timeout: 200 * ms}}[idx%3]
+	idx /= 3
+	rel := []time.Duration{ms, 50 * ms, 400 * ms}[idx%3]
+	idx /= 3
+	two := idx%2 == 1
+	h := r.pickD(200*ms, 500*ms)
+	s := &Spec{TTL: 3 * h, NoPreempt: true, Tags: []string{"lifecycle", "nowaitrestart"}}
+	s.Lat = Latency{Max: r.pickD(0, 2*ms)}
+	n := 1
+	if two {
+		n = 2
+	}
+	s.Insts = mkInsts(n, 1, h)
+	s.Insts[0].BlockPromote = r.chance(0.5)
+	s.Breaks = []BreakSpec{{Name: "dg", Client: "*", Op: "yield:demoteGoroutineEntry", Nth: 1, Phase: "site"}}
+	s.Actions = append(s.Actions, Action{At: 10 * ms, Kind: "start", Inst: "i0"})
+	if two {
+		s.Actions = append(s.Actions, Action{At: 300 * ms, Kind: "start", Inst: "i1"})
+	}
+	s.Actions = append(s.Actions,
+		Action{At: 2 * sec, Kind: "arm", Break: "dg"},
+		Action{Chain: true, Kind: "restart", Inst: "i0", Stop: &sv},
+		Action{After: ms, Kind: "waitbreak", Break: "dg", D: 3 * sec},
+		Action{After: 300*ms + rel, Kind: "release", Break: "dg"},
+		Action{After: ms, Kind: "waitapi", Inst: "i0", D: 8 * sec},
+	)
+	s.Duration = 4 * h
 	s.Sample = sampleFor(h)
 	return s
 }
